@@ -618,6 +618,7 @@ def wds_call(util, key, data):
 def search(ctx, np, util, config, sf_actual, icases=()):
     r = ctx.rng
     bad = []
+    sf_initial = set(getattr(config, "SOUNDFILE_SUPPORTED_FILE_TYPES", ()))
     # the documented selection strategy, on every generated name
     for sfv, nm, obs in icases:
         ctx.count("search:infer_vs_documented_rules")
@@ -890,6 +891,38 @@ def search(ctx, np, util, config, sf_actual, icases=()):
             pass
         except Exception as e:  # noqa: BLE001
             bad.append(("unknown_force_as", dict(force_as=fa, got=type(e).__name__)))
+    # AFTER the error paths above have run (they mention every known force_as keyword): existing files named
+    # after those keywords still have "no recognised suffix" - the dispatch tables must not have learnt anything
+    os.makedirs(FILES, exist_ok=True)
+    kw_names = []
+    for kwd in ["file", "soundfile", "kaldi", "table", "numpy", "foo", "WAV", "mp3", "Npy", "hdf", "sphere"]:
+        pth = os.path.join(FILES, "sig_%d.%s" % (len(kw_names), kwd))
+        with open(pth, "wb") as fo:
+            fo.write(np.arange(64, dtype=np.int16).tobytes())
+        kw_names.append(pth)
+    sf_types = set(getattr(config, "SOUNDFILE_SUPPORTED_FILE_TYPES", ()))
+    for pth in kw_names:
+        if pth.rsplit(".", 1)[-1] in sf_actual:
+            continue  # a container libsndfile really supports under that suffix
+        ctx.count("search:errors_after_history")
+        try:
+            got = util.read_signal(pth)
+            bad.append(("no_suffix_after_history", dict(name=os.path.basename(pth), got="no exception: %s" % str(got)[:60],
+                                                        history="ValueError for unknown force_as values raised earlier in this process")))
+        except IOError as e:
+            if "infer" not in str(e).lower() and not isinstance(e, FileNotFoundError):
+                pass  # any IOError is what the property asks for
+        except Exception as e:  # noqa: BLE001
+            bad.append(("no_suffix_after_history", dict(name=os.path.basename(pth), got=type(e).__name__, error=str(e)[:100],
+                                                        history="ValueError for unknown force_as values raised earlier in this process")))
+    if set(getattr(config, "SOUNDFILE_SUPPORTED_FILE_TYPES", ())) != set(sf_initial):
+        # not a violation by itself (the property speaks of read_signal's results only): recorded
+        ctx.count("search:config_soundfile_types_changed_during_run")
+    for pth in kw_names:
+        try:
+            os.remove(pth)
+        except OSError:
+            pass
     # wds_read_signal on garbage: never raises, None or an array
     seeds = []
     for kind in ["wav", "npy", "pt", "npz", "h5", "sph", "snd"]:
